@@ -50,13 +50,29 @@ def run_scenarios(job):
     """worker: one history prefix, then abort scenarios branching from copies of the workspace"""
     from gen import buildsim as bs
     r = random.Random(job["key"])
-    rec = {"key": job["key"], "scenarios": [], "prefix": [], "truncated": False, "n_chains": job.get("n_chains", 2)}
+    rec = {"key": job["key"], "scenarios": [], "prefix": [], "truncated": False, "n_chains": job.get("n_chains", 2),
+           "npkgs": job.get("npkgs")}
     if time.time() > job["deadline"]:
         rec["truncated"] = True
         return rec
     n_prefix = job["n_prefix"]
-    hist, edits = c01._mk_history(r, n_prefix + 1, job.get("kinds"))
+    family = job.get("family", "generic")
+    rec["family"] = family
+    rec["n_prefix"] = n_prefix
+    if family == "forced":
+        # the aborted invocation is a forced rebuild (-f) of the unchanged project
+        hist, edits = c01._mk_history(r, n_prefix, job.get("kinds"), job.get("npkgs"))
+        hist, edits = hist + [hist[-1]], edits + [["force"]]
+    elif family == "inputs-revert":
+        # the edit before the aborted invocation changes only input *contents* (sources), and is reverted afterwards:
+        # the follow-up invocation sees exactly the inputs of the last successful one
+        hist, edits = c01._mk_history(r, n_prefix, job.get("kinds"), job.get("npkgs"))
+        p, e = bs.edit(r, hist[-1], hist[:-1], ["src-modify", "src-add", "src-delete"])
+        hist, edits = hist + [p], edits + [e]
+    else:
+        hist, edits = c01._mk_history(r, n_prefix + 1, job.get("kinds"), job.get("npkgs"))
     develop = r.random() < 0.7
+    force_abort = family == "forced"
     rec.update(develop=develop, edits=edits)
     base = os.path.join(job["tmp"], "s-" + "".join(c if c.isalnum() else "_" for c in job["key"]))
     shutil.rmtree(base, ignore_errors=True)
@@ -84,11 +100,12 @@ def run_scenarios(job):
             shutil.rmtree(simB.root, ignore_errors=True)
         return clean_cache[k]
 
-    def record(sim, proj, res, extra=None, seen=None):
+    def record(sim, proj, res, extra=None, seen=None, force=False):
         obs = bs.observe(sim, res, known if seen is None else seen)
         if seen is not None:
             seen |= set(obs["state"])
-        d = {"proj": proj, "argv": ["p0"] + bs.defines_argv(proj), "force": False, "rc": res["rc"], "error": res["error"],
+        d = {"proj": proj, "argv": ["p0"] + bs.defines_argv(proj) + (["-f"] if force else []), "force": force,
+             "rc": res["rc"], "error": res["error"],
              "log": res["log"], "obs": obs, "aborted_before": res.get("aborted_before"),
              "tail": res["stdout"][-1200:] if res["rc"] != 0 else ""}
         if extra:
@@ -112,7 +129,7 @@ def run_scenarios(job):
         _copytree(W, saved)
         ref = sim0
         bs.render(target, ref.root)
-        resR = ref.invoke(develop, ["p0"] + bs.defines_argv(target))
+        resR = ref.invoke(develop, ["p0"] + bs.defines_argv(target) + (["-f"] if force_abort else []))
         if resR["rc"] != 0 or not resR["dump"]:
             rec["ref_failed"] = resR["error"]
             return rec
@@ -122,7 +139,7 @@ def run_scenarios(job):
         # scenario list: every cut k, every failing/killing script, then chains
         plans = [[("cut", k)] for k in range(1, T + 1)]
         for kind, name, path in faults:
-            for mode in ("exit", "kill", "killbob"):
+            for mode in ("exit", "kill", "term", "killbob"):
                 plans.append([("fault", kind, name, mode, path)])
         rp = random.Random(job["key"] + "/plans")
         rc = random.Random(job["key"] + "/chains")
@@ -132,13 +149,15 @@ def run_scenarios(job):
             hot = [p for p in plans if p[0][0] == "fault" or (p[0][0] == "cut" and p[0][1] >= 2 and
                    resR["log"][p[0][1] - 2][0] in ("emptyDir", "run", "mkDir", "setAttic"))]
             rp.shuffle(hot)
+            if job.get("faults_first"):
+                hot = [p for p in hot if p[0][0] == "fault"] + [p for p in hot if p[0][0] != "fault"]
             rest = [p for p in plans if p not in hot]
             plans = (hot + rest)[:job["max_plans"]]
         chains = []
         for _ in range(job.get("n_chains", 2)):
             m = rc.choice([2, 2, 3])
             chains.append([("cut", rc.randrange(1, T + 1)) if rc.random() < 0.7 or not faults else
-                           ("fault",) + tuple(rc.choice(faults)[:2]) + (rc.choice(["exit", "kill", "killbob"]), None)
+                           ("fault",) + tuple(rc.choice(faults)[:2]) + (rc.choice(["exit", "kill", "term", "killbob"]), None)
                            for _ in range(m)])
         for n, plan in enumerate(plans + chains):
             if job.get("only") is not None and n not in job["only"]:
@@ -159,24 +178,34 @@ def run_scenarios(job):
             for ai, ab in enumerate(plan):
                 bs.render(cur, sim.root)
                 sim.clear_faults()
+                fa = force_abort and ai == 0
+                argv_ab = ["p0"] + bs.defines_argv(cur) + (["-f"] if fa else [])
                 if ab[0] == "cut":
-                    res = sim.invoke(develop, ["p0"] + bs.defines_argv(cur), abort_at=ab[1])
+                    res = sim.invoke(develop, argv_ab, abort_at=ab[1])
+                    fired = []
                 else:
                     sim.set_fault(ab[1], ab[2], ab[3])
-                    res = sim.invoke(develop, ["p0"] + bs.defines_argv(cur))
+                    res = sim.invoke(develop, argv_ab)
+                    fired = sim.fired()
                 sim.clear_faults()
                 sim.remove_lock()
-                inv = record(sim, cur, res, {"abort": list(ab)}, seen)
+                inv = record(sim, cur, res, {"abort": list(ab), "fired": fired}, seen, force=fa)
                 sc["invs"].append(inv)
+                if ab[0] == "fault" and ab[3] != "killbob" and fired and res["rc"] == 0:
+                    # the step script died (exit 1 / SIGKILL / SIGTERM of its shell) and Bob reports success
+                    sc.setdefault("death_ignored", []).append(list(ab[:4]))
                 # which workspace was left incomplete when the run ended?  A later (aborted) run that
                 # re-runs / prunes / resets the path takes over the responsibility for it.
                 redone = {e[1] for e in res["log"] if e[0] in ("run", "emptyDir", "reset", "mkDir")}
                 dirty = [p for p in dirty if p not in redone]
-                if res["rc"] != 0 and res["log"]:
-                    last = res["log"][-1]
-                    if (ab[0] == "fault" and last[0] == "run") or last[0] == "emptyDir":
-                        # script failed / was killed half way, or Bob was killed right after emptying the directory
-                        dirty.append(last[1])
+                runs = [e[1] for e in res["log"] if e[0] == "run"]
+                if ab[0] == "fault" and fired and runs:
+                    # the script died (or Bob was killed) after half of the output: whatever this invocation reports,
+                    # the next one has to execute that step again
+                    dirty.append(runs[-1])
+                elif res["rc"] != 0 and res["log"] and res["log"][-1][0] == "emptyDir":
+                    # Bob was killed right after emptying the directory
+                    dirty.append(res["log"][-1][1])
                 # between consecutive aborts the user may edit further or revert
                 if ai + 1 < len(plan):
                     k = sr.random()
@@ -185,6 +214,10 @@ def run_scenarios(job):
                     elif k < 0.5:
                         cur, _ = bs.edit(sr, cur, hist, job.get("kinds"))
             k = sr.random()
+            if family == "inputs-revert":
+                k = 0.5 if cur is target else 0.1    # back to the last successfully built project
+            elif family == "forced":
+                k = 0.1
             if k < 0.45:
                 final = cur
                 sc["follow"] = "same"
@@ -361,6 +394,7 @@ def judge(ctx, rec):
     for sc in rec["scenarios"]:
         ab = sc["invs"][0]
         case = {"key": rec["key"], "n_prefix": rec.get("n_prefix"), "kinds": rec.get("kinds"), "scenario": sc["n"],
+                "family": rec.get("family"), "npkgs": rec.get("npkgs"),
                 "n_chains": rec.get("n_chains", 2),
                 "plan": sc["plan"], "follow": sc["follow"], "develop": rec.get("develop"), "edits": rec.get("edits")}
         ctx.case((rec["key"], sc["plan"], sc["follow"]), nontrivial=len(ab["log"]) > 0,
@@ -374,6 +408,9 @@ def judge(ctx, rec):
         if sc["rcB"] != 0:
             ctx.count("scenario", "clean-build-fails")
             continue
+        for d in sc.get("death_ignored", []):
+            ctx.violation("the script of step %s/%s died (%s) after half of its output, but the invocation exits 0: the partial "
+                          "workspace is recorded as the step's result" % (d[1], d[2], d[3]), case, "script-death-ignored")
         sig = _signature(sc)
         if not isinstance(fin["rc"], int) or any(i["rc"] in ("timeout", "harness-error") for i in sc["invs"]):
             # time-out of a (heavily loaded) machine or a harness problem: no verdict
@@ -394,10 +431,24 @@ def judge(ctx, rec):
                           % sc["false_uptodate"][0], case, sig + ":false-uptodate")
 
 
+FAMILIES = ["generic", "inputs-revert", "forced", "generic"]
+
+
 def _jobs(ctx, n, tag, share, **kw):
     deadline = time.time() + max(5.0, ctx.time_left() * share)
     return [dict(repo=ctx.repo, tmp=ctx.tmp, key="%s-%d-%s-%d" % (ctx.prop, ctx.seed, tag, i), deadline=deadline,
-                 n_prefix=(i % 3), **kw) for i in range(n)]
+                 n_prefix=(i % 3), family=FAMILIES[i % 4], **kw) for i in range(n)]
+
+
+def _must_jobs(ctx):
+    """a guaranteed minimum whatever the machine load: small projects, a few fault plans each, no deadline"""
+    far = time.time() + 3600
+    out = []
+    for k in range(ctx.scale(6, 12)):
+        out.append(dict(repo=ctx.repo, tmp=ctx.tmp, key="%s-%d-must-%d" % (ctx.prop, ctx.seed, k), deadline=far,
+                        n_prefix=1 + (k % 2), family=["inputs-revert", "forced", "generic"][k % 3], npkgs=2,
+                        max_plans=ctx.scale(5, 10), n_chains=0, faults_first=True))
+    return out
 
 
 _CACHE = {}
@@ -408,42 +459,16 @@ def oracle(ctx):
     jobs = _jobs(ctx, n, "abort", 0.55, max_plans=ctx.scale(14, 0), n_chains=ctx.scale(2, 6))
     scm_jobs = [dict(repo=ctx.repo, tmp=ctx.tmp, key="%s-%d-scm-%s" % (ctx.prop, ctx.seed, v), scm=v,
                      deadline=jobs[0]["deadline"], max_k=ctx.scale(12, 40)) for v in ("switch", "attic")]
-    recs = ctx.parallel(run_job, scm_jobs + jobs)
+    recs = ctx.parallel(run_job, scm_jobs + _must_jobs(ctx) + jobs)
     scm_recs, recs = recs[:len(scm_jobs)], recs[len(scm_jobs):]
     _CACHE["recs"] = recs
     for rec in scm_recs:
         judge_scm(ctx, rec)
     for rec in recs:
-        rec["n_prefix"] = None
         judge(ctx, rec)
     ctx.notes["scenarios"] = sum(len(r["scenarios"]) for r in recs)
     if not any(r["scenarios"] for r in recs):
         ctx.skip("no abort scenario completed within the time budget")
-
-
-def model_params(inv):
-    """fuel / failing script / junk of the model run that corresponds to a recorded invocation"""
-    from gen import buildsim as bs
-    ab = inv.get("abort")
-    if not ab:
-        return {}
-    obs = inv["obs"]
-
-    def term(path):
-        s = obs["snaps"].get(path)
-        return "" if s in (None, bs.EMPTY_SNAP) else "SNAP:" + s
-    if ab[0] == "cut":
-        if inv["rc"] != "abort":
-            return {}
-        return {"fuel": bs.model_fuel(inv["log"], inv.get("aborted_before"))}
-    runs = [e for e in inv["log"] if e[0] == "run"]
-    if inv["rc"] == 0 or not runs:
-        return {}
-    path = runs[-1][1]
-    tag = (obs["steps"] or {}).get(path, {}).get("tag")
-    if ab[3] == "killbob":
-        return {"fuel": bs.model_fuel(inv["log"], None) - 1, "junk": term(path)}
-    return {"fail": {tag: term(path)}}
 
 
 def correspond(ctx):
@@ -458,7 +483,7 @@ def correspond(ctx):
         for sc in rec["scenarios"]:
             invs = rec["prefix"] + sc["invs"]
             for inv in invs:
-                inv["model"] = model_params(inv)
+                inv["model"] = bs.model_params(inv)
             h = {"key": "%s/%d" % (rec["key"], sc["n"]), "invs": invs, "develop": rec["develop"], "jobs": 1,
                  "edits": [sc["plan"], sc["follow"]], "root": rec.get("root", "")}
             for i, inv in enumerate(invs):
@@ -481,11 +506,10 @@ def replay(ctx, case):
                                     deadline=time.time() + 900, only_k=[case["k"]]))
         judge_scm(ctx, rec)
         return
-    job = dict(repo=ctx.repo, tmp=ctx.tmp, key=case["key"], n_prefix=int(case["key"].rsplit("-", 1)[1]) % 3,
+    job = dict(repo=ctx.repo, tmp=ctx.tmp, key=case["key"], n_prefix=(case["n_prefix"] if case.get("n_prefix") is not None else int(case["key"].rsplit("-", 1)[1]) % 3),
                deadline=time.time() + 900, max_plans=0, n_chains=case.get("n_chains", 2), kinds=case.get("kinds"),
-               only_plan=case["plan"])
+               only_plan=case["plan"], family=case.get("family") or "generic", npkgs=case.get("npkgs"))
     rec = run_scenarios(job)
-    rec["n_prefix"] = None
     judge(ctx, rec)
 
 
